@@ -63,7 +63,7 @@ def oracle(c, impl, spec, model):
 
 
 def run(ck):
-    ck.prove(["Properties_C10", "Properties_SrcAes"], THEOREMS + ['SRC_mode_stream', 'SRC_mode_stream_is_sp80038a'])
+    ck.prove(["Properties_C10", "Properties_SrcAes", "Properties_SrcAesF"], THEOREMS + ['SRC_mode_stream', 'SRC_mode_stream_is_sp80038a', 'SRC_mode_factory'])
     exe = ck.impl_driver()
     cases = gen_cases(ck)
     impl, model, spec = differential(ck, exe, cases, oracle, src=True)
